@@ -2,7 +2,7 @@
     the service (Model/Rest.v) answers: the same status, the same JSON tree, for every request.  Where the model says
     "the Recovery middleware answers the panic" (its [recovered_panic]), the translated handler panics. *)
 From Coq Require Import String ZifyN ZifyNat ZifyBool.
-From OtpV Require Import Prelude Sha GoSem Errors Decoder Derive Otp Ocra Utils Random Suite Url Rest RestSem Src SrcRest
+From OtpV Require Import Prelude Sha GoSem Rfc4648 Errors Decoder Derive Otp Ocra Utils Random Suite Url Rest RestSem Src SrcRest
      OtpProofs OcraProofs SrcLift SrcTop SrcEqDecode SrcEqHotp SrcEqTotp SrcEqOcraV SrcEqOcra SrcEqSuite SrcEqUtils SrcEqUrl.
 Open Scope N_scope.
 
@@ -283,4 +283,97 @@ Proof.
   match goal with |- context [validate_hotp ?s ?cd ?t ?p] =>
     destruct (validate_hotp_ok s cd t p) as [b [e Hok]]; unfold lift_v, verdict_bool; rewrite Hok end.
   reflexivity.
+Qed.
+
+(** ---------- /ocra/suites, /ocra/suite, /, /otp/secret ---------- *)
+Ltac rest_open_get c :=
+  unfold ctx_is_get;
+  destruct (is_get (cx_req c)) eqn:Eget; cbn [negb];
+  [| rewrite src_writeError; cbn [rbind]; rewrite lift_not_allowed; reflexivity ];
+  cbv zeta.
+
+Lemma src_listOCRASuites_eq fuel c :
+  SrcRest.listOCRASuites fuel c = lift_rest c (Rest.list_ocra_suites (cx_req c)).
+Proof.
+  unfold SrcRest.listOCRASuites, Rest.list_ocra_suites. rest_open_get c.
+  rewrite src_ListSuites_eq. reflexivity.
+Qed.
+
+Lemma src_ocraSuiteConfig_eq fuel c : rest_runs fuel c ->
+  SrcRest.ocraSuiteConfig c = lift_rest c (Rest.ocra_suite_config (cx_req c)).
+Proof.
+  intros Hr. unfold SrcRest.ocraSuiteConfig, Rest.ocra_suite_config. rest_open c Hr.
+  unfold unmarshal_suiteConfigReq, decode_suiteConfigReq. destruct (r_body (cx_req c)) as [| |f] eqn:Eb; cbn [body_fields];
+    try (cbn [is_some]; rewrite src_writeError; cbn [rbind]; rewrite lift_decode_failed; reflexivity).
+  destruct (dec_string (field "raw_suite" f)) as [raw|];
+    [| cbn [is_some]; rewrite src_writeError; cbn [rbind]; rewrite lift_decode_failed; reflexivity ].
+  cbn [is_some]. unfold suiteConfigReq_validate. cbn [suiteConfigReq_RawSuite]. rewrite beqb_blank.
+  destruct (blank raw); cbn [rbind is_some deref].
+  { rewrite src_writeError. cbn [rbind]. rewrite lift_err400s. reflexivity. }
+  rewrite src_IsKnownSuite_eq. cbn [rbind].
+  destruct (is_known_suite raw); cbn [negb rbind is_some deref].
+  2:{ rewrite src_writeError. cbn [rbind]. rewrite lift_err400. reflexivity. }
+  rewrite src_SuiteConfigFromRaws_eq. cbn [rbind]. cbv zeta. rewrite src_Algorithm_String_eq. cbn [rbind]. reflexivity.
+Qed.
+
+(** the home page: a fixed JSON object (its texts are constants of the sources; the model's payload has no content) *)
+Lemma src_home_eq c : exists j,
+  SrcRest.home c = (if is_get (cx_req c) then Val (answer c 200 j) else lift_rest c not_allowed) /\
+  Rest.home (cx_req c) = (if is_get (cx_req c) then (mkResp 200 PHome, O) else not_allowed).
+Proof.
+  eexists. unfold SrcRest.home, Rest.home, ctx_is_get. destruct (is_get (cx_req c)); cbn [negb]; split; reflexivity.
+Qed.
+
+(** a fresh secret: the base32 text of as many bytes of the random source as the hash's output has, and the hash's name *)
+Lemma src_generateRandomSecret_eq junk c : (64 <= length junk)%nat ->
+  SrcRest.generateRandomSecret junk c =
+  (if is_get (cx_req c) then
+     let a := algorithm_from_str (r_query_alg (cx_req c)) in
+     match Random.secret_size a with
+     | Some n => Val (answer c 200 (OObj [(s2b "secret", OStr (b32_nopad (firstn n junk))); (s2b "algorithm", OStr (alg_string a))]))
+     | None => Val (answer c 500 (err_json 500 (s2b "failed to generate secret")))
+     end
+   else lift_rest c not_allowed) /\
+  Rest.generate_random_secret (cx_req c) =
+  (if is_get (cx_req c) then (mkResp 200 (PSecret (algorithm_from_str (r_query_alg (cx_req c)))), O) else not_allowed).
+Proof.
+  intros Hj. unfold SrcRest.generateRandomSecret, Rest.generate_random_secret, ctx_is_get, ctx_query_alg.
+  destruct (is_get (cx_req c)); cbn [negb]; split; try reflexivity.
+  rewrite src_AlgorithmFromStr_eq. cbn [rbind]. cbv zeta. rewrite src_RandomSecret_eq by exact Hj.
+  destruct (Random.secret_size (algorithm_from_str (r_query_alg (cx_req c)))) as [n|]; cbn [rbind fst snd option_map is_some].
+  - rewrite src_Algorithm_String_eq. cbn [rbind]. reflexivity.
+  - rewrite src_writeError. reflexivity.
+Qed.
+
+(** ---------- /otp/url ---------- *)
+Lemma beqb_beq a b : beqb a b = Suite.beq a b.
+Proof. reflexivity. Qed.
+
+Lemma src_otpURLGeneration_eq fuel c : rest_runs fuel c ->
+  SrcRest.otpURLGeneration fuel c = lift_rest c (Rest.otp_url_generation (cx_req c)).
+Proof.
+  intros Hr. unfold SrcRest.otpURLGeneration, Rest.otp_url_generation. rest_open c Hr.
+  unfold unmarshal_otpURLGenerateReq, decode_otpURLGenerateReq. destruct (r_body (cx_req c)) as [| |f] eqn:Eb; cbn [body_fields];
+    try (cbn [is_some]; rewrite src_writeError; cbn [rbind]; rewrite lift_decode_failed; reflexivity).
+  destruct (dec_string (field "type" f)) as [ty|], (dec_string (field "secret" f)) as [sec|], (dec_string (field "issuer" f)) as [iss|],
+    (dec_string (field "account_name" f)) as [acc|], (dec_uint64 (field "period" f)) as [per|], (dec_string (field "digits" f)) as [dg|],
+    (dec_string (field "algorithm" f)) as [al|];
+    try (cbn [is_some]; rewrite src_writeError; cbn [rbind]; rewrite lift_decode_failed; reflexivity).
+  cbn [is_some]. unfold otpURLGenerateReq_validate.
+  cbn [otpURLGenerateReq_Type otpURLGenerateReq_Secret otpURLGenerateReq_Issuer otpURLGenerateReq_AccountName otpURLGenerateReq_Period
+       otpURLGenerateReq_Digits otpURLGenerateReq_Algorithm].
+  rewrite !beqb_blank.
+  destruct (blank ty); cbn [rbind is_some deref]; [rewrite src_writeError; cbn [rbind]; rewrite lift_err400s; reflexivity|].
+  destruct (blank sec); cbn [rbind is_some deref]; [rewrite src_writeError; cbn [rbind]; rewrite lift_err400s; reflexivity|].
+  destruct (blank iss); cbn [rbind is_some deref]; [rewrite src_writeError; cbn [rbind]; rewrite lift_err400s; reflexivity|].
+  destruct (blank acc); cbn [rbind is_some deref]; [rewrite src_writeError; cbn [rbind]; rewrite lift_err400s; reflexivity|].
+  rewrite src_AlgorithmFromStr_eq, src_DigitsFromStr_eq. cbn [rbind]. cbv zeta.
+  unfold Suite.beq. change Otp.bytes_eqb with GoSem.beqb.
+  destruct (beqb ty (s2b "totp")) eqn:Et.
+  - rewrite src_GenerateTOTPURL_eq. destruct (generate_totp_url _) as [u|e|]; cbn [lift_url rbind fst snd option_map is_some deref];
+      try (rewrite src_writeError; cbn [rbind]); reflexivity.
+  - destruct (beqb ty (s2b "hotp")) eqn:Eh.
+    + rewrite src_GenerateHOTPURL_eq. destruct (generate_hotp_url _) as [u|e|]; cbn [lift_url rbind fst snd option_map is_some deref];
+        try (rewrite src_writeError; cbn [rbind]); reflexivity.
+    + rewrite src_writeError. reflexivity.
 Qed.
